@@ -47,6 +47,22 @@ func load() {
 	}
 }
 
+// Load (re)loads the replay file at path; used when several harnesses are replayed in one process.
+func Load(path string) {
+	loaded = true
+	seen = map[string]int{}
+	rp = replay{Values: map[string]uint64{}}
+	b, err := os.ReadFile(path)
+	if err != nil {
+		fmt.Println("VERIF-REPLAY-ERROR", err)
+		os.Exit(4)
+	}
+	if err := json.Unmarshal(b, &rp); err != nil {
+		fmt.Println("VERIF-REPLAY-ERROR", err)
+		os.Exit(4)
+	}
+}
+
 func val(name string) uint64 {
 	load()
 	n := seen[name]
